@@ -381,11 +381,25 @@ def main(tier):
     tot, samples, runs = run_matrix(rep, variant, configs, deadline)
     if tot["cells_ok"] < 100:
         rep.harness_errors.append("vacuous: %r" % tot)
-    rep.coverage = {"evaluations": tot["cells"], "distinct_nontrivial": tot["cells_ok"], "samples": samples[:6], "exhaustive": True, "runs": runs, "variant": variant,
+    # second part: the always-authenticate clause (checks/c07_aa.py), unmerged DFS over call sequences
+    import c07_aa
+    from p11mc.core import Explorer, confirm_violations
+    aa_depth = 4 if quick else 5
+    ex = Explorer(c07_aa.C07AA(), variant=variant, deadline=deadline + 600)
+    try:
+        aa_done = ex.dfs(aa_depth)
+        confirm_violations(ex, rep)
+        aa = {"depth": aa_depth, "sequences": ex.stats["dfs_paths"], "calls": ex.stats["dfs_transitions"], "complete": bool(aa_done), "counters": ex.stats["counters"], "alphabet": len(c07_aa.C07AA().actions(None))}
+        if aa_done and not ex.stats["counters"].get("output-after-context-login"):
+            rep.harness_errors.append("vacuous always-authenticate search: the authenticated path never produced output (%r)" % ex.stats["counters"])
+    finally:
+        ex.close()
+    rep.coverage = {"evaluations": tot["cells"], "distinct_nontrivial": tot["cells_ok"], "samples": samples[:6], "exhaustive": bool(aa["complete"]), "runs": runs, "variant": variant, "always_authenticate_search": aa,
                     "rule": "one evaluation = one (operation | digest-init | generate-key | generate-key-pair) x mechanism x key kind x flag variant x allowed-list "
                             "variant x configuration cell executed on the real library; every CKM_* constant of PKCS#11 v2.40 plus three unknown values is used as "
                             "mechanism; non-trivial = the cell returned CKR_OK (the only-if oracle is evaluated on exactly these)"}
-    rep.assumptions = ["the (mechanism -> operations, key types) table in the check source transcribes the PKCS#11 v2.40 mechanism sections",
+    rep.assumptions = ["always-authenticate clause: sign and decrypt only (the uses PKCS#11 defines for CKA_ALWAYS_AUTHENTICATE); RSA and EC keys, two sessions, every call sequence up to the stated depth",
+                       "the (mechanism -> operations, key types) table in the check source transcribes the PKCS#11 v2.40 mechanism sections",
                        "mechanism parameters are the valid ones per mechanism; a cell that fails for another reason is not judged"]
     return rep.finish()
 
